@@ -8,6 +8,8 @@ class (`C19_cex_decimal`); `C19_row_equiv` states the equivalence with exactly t
 `C19_row_equiv_no_decimal` is its Decimal-free corollary.
 -/
 import SqlframeModel.Impl.C19Row
+import SqlframeModel.Lemmas.C19Dict
+import SqlframeModel.Lemmas.C19Sort
 namespace Sqlframe.C19
 open Sqlframe.Gen.RowCompat
 
@@ -21,11 +23,14 @@ theorem C19_sources_identical :
       sameMethods.contains) = true ∧ diffMethods = [] ∧ missingMethods = [] ∧
     (["compare_vals", "compare_rows", "assert_rows_equal", "compare_schemas_ignore_nullable",
       "compare_structfields_ignore_nullable", "compare_datatypes_ignore_nullable"].all sameFuncs.contains) = true ∧
-    diffFuncs = [] := by decide
+    diffFuncs = [] ∧ schemaTopSame = true ∧
+    -- the operators the model ascribes to `tuple` (==, <, hash, len, iteration) are not overridden by the class
+    rowBases = ["tuple"] ∧ extraDunders = [] ∧ classAssigns = [] := by decide
 
 /-- same defaults for checkRowOrder / rtol / atol -/
 theorem C19_defaults : sfCheckRowOrderDefault = psCheckRowOrderDefault ∧ sfRtolDefault = psRtolDefault ∧
-    sfAtolDefault = psAtolDefault ∧ sortsBoth = psSortsBoth := by decide
+    sfAtolDefault = psAtolDefault ∧ sortActual = .copy ∧ sortExpected = .copy ∧ psSortsBoth = true ∧
+    asDictRecursiveDefault = false := by decide
 
 /-! ## 1. repr and asDict(recursive) -/
 
@@ -69,9 +74,15 @@ theorem conv_equiv : ∀ v : Val, Sf.conv v = Ps.conv v
   | .str _ => rfl
   | .flt _ _ => rfl
   | .dec _ _ _ => rfl
-  | .list xs => by simp only [Sf.conv, Ps.conv, convs_equiv xs]
-  | .dict ks vs => by simp only [Sf.conv, Ps.conv, convs_equiv vs]
-  | .row true fs vs => by simp only [Sf.conv, Ps.conv, convs_equiv vs]
+  | .list xs => by
+    have h : convList = true := by decide
+    simp only [Sf.conv, Ps.conv, h, if_true, convs_equiv xs]
+  | .dict ks vs => by
+    have h : convDict = true := by decide
+    simp only [Sf.conv, Ps.conv, h, if_true, convs_equiv vs]
+  | .row true fs vs => by
+    have h : convRow = true := by decide
+    simp only [Sf.conv, Ps.conv, h, if_true, convs_equiv vs]
   | .row false fs vs => by simp only [Sf.conv, Ps.conv]
 theorem convs_equiv : ∀ vs : Vals, Sf.convs vs = Ps.convs vs
   | .nil => rfl
@@ -94,36 +105,64 @@ def TopDecFree : Val → Prop
     attribute assignment, pickle round trip, `__fields__` — has the same outcome on the same row, the packages' own
     exception classes identified. -/
 theorem C19_op_equiv (r : Val) (op : Op) (h : TopDecFree r) : (Sf.apply r op).abs = (Ps.apply r op).abs := by
+  have hp : getattrGuardPrefix = "__" := by decide
+  have hgr : getattrGuardRaises = .attributeError := by decide
+  have hnf : getattrNoField = .attributeError := by decide
+  have hsh : getattrShort = .attributeError := by decide
+  have hii : getitemInt = true := by decide
+  have his : getitemSlice = true := by decide
+  have hin : getitemNoField = .domainError := by decide
+  have hik : getitemShort = .keyError := by decide
+  have hsa : setattrAllowed = "__fields__" := by decide
+  have hsr : setattrRaises = .runtimeError := by decide
+  have hdn : asDictNoFields = .domainError := by decide
+  have hdd : asDictRecursiveDefault = false := by decide
   cases op with
-  | getIdx i => cases r <;> simp only [Sf.apply, Ps.apply, Sf.getIdx, Ps.getIdx]
+  | getIdx i => cases r <;> simp only [Sf.apply, Ps.apply, Sf.getIdx, Ps.getIdx, hii, if_true]
   | getKey k =>
     cases r with
     | row hf fs vs =>
       cases hf with
       | false => rfl
       | true =>
-        simp only [Sf.apply, Ps.apply, Sf.getKey, Ps.getKey]
+        simp only [Sf.apply, Ps.apply, Sf.getKey, Ps.getKey, hin, hik, Err.ofExc]
         cases Py.indexOf k fs 0 with
         | none => rfl
         | some j => cases vs.get? j <;> rfl
     | _ => rfl
   | getAttr n =>
     cases r with
-    | row hf fs vs => cases hf <;> simp only [Sf.apply, Ps.apply, Sf.getAttr, Ps.getAttr]
-    | _ => simp only [Sf.apply, Ps.apply, Sf.getAttr, Ps.getAttr]
+    | row hf fs vs =>
+      cases hf with
+      | false => simp only [Sf.apply, Ps.apply, Sf.getAttr, Ps.getAttr, hp, hgr, Err.ofExc]
+      | true => simp only [Sf.apply, Ps.apply, Sf.getAttr, Ps.getAttr, hp, hgr, hnf, hsh, Err.ofExc]
+    | _ => simp only [Sf.apply, Ps.apply, Sf.getAttr, Ps.getAttr, hp, hgr, Err.ofExc]
   | contains v => cases r <;> simp only [Sf.apply, Ps.apply, Sf.contains, Ps.contains]
   | asDict rec =>
     cases r with
     | row hf fs vs =>
       cases hf with
-      | false => rfl
+      | false => simp only [Sf.apply, Ps.apply, Sf.asDict, Ps.asDict, hdn, Err.ofExc]; rfl
       | true => simp only [Sf.apply, Ps.apply, Sf.asDict, Ps.asDict, convs_equiv vs]
+    | _ => rfl
+  | asDictDefault =>
+    cases r with
+    | row hf fs vs =>
+      cases hf with
+      | false => simp only [Sf.apply, Ps.apply, Sf.asDict, Ps.asDict, hdn, Err.ofExc]; rfl
+      | true => simp only [Sf.apply, Ps.apply, Sf.asDict, Ps.asDict, hdd, convs_equiv vs]
     | _ => rfl
   | len => rfl
   | eq o => rfl
+  | ne o => rfl
   | lt o => rfl
+  | le o => rfl
   | repr => simp only [Sf.apply, Ps.apply, repr_equiv r]
-  | setAttr n => rfl
+  | setAttr n => simp only [Sf.apply, Ps.apply, Sf.setAttr, Ps.setAttr, hsa, hsr, Err.ofExc]
+  | delAttr n => rfl
+  | setFields ns => simp only [Sf.apply, Ps.apply, Sf.setAttr, Ps.setAttr, hsa, hsr, Err.ofExc]
+  | hash => rfl
+  | getSlice i j => cases r <;> simp only [Sf.apply, Ps.apply, Sf.getSlice, Ps.getSlice, his, if_true]
   | pickle =>
     cases r with
     | row hf fs vs =>
@@ -135,6 +174,40 @@ theorem C19_op_equiv (r : Val) (op : Op) (h : TopDecFree r) : (Sf.apply r op).ab
         cases decCreateRow <;> rfl
     | _ => rfl
   | fields => rfl
+
+/-- the row after a query is the same row in both packages … -/
+theorem after_equiv (r : Val) (op : Op) : Sf.after r op = Ps.after r op := by
+  have hsa : setattrAllowed = "__fields__" := by decide
+  cases op <;> simp only [Sf.after, Ps.after, hsa]
+
+/-- no top-level Decimal among the values, with or without `__fields__` -/
+def AllDecFree : Val → Prop
+  | .row _ _ vs => floatifyAll vs = vs
+  | _ => True
+
+def Op.isSetFields : Op → Bool
+  | .setFields _ => true
+  | _ => false
+
+theorem after_noset (r : Val) (op : Op) (h : op.isSetFields = false) : Sf.after r op = r := by
+  cases op <;> first | rfl | (simp [Op.isSetFields] at h)
+
+/-- an assignment to `__fields__` leaves the values alone -/
+theorem after_allDecFree (r : Val) (op : Op) (h : AllDecFree r) : AllDecFree (Sf.after r op) ∧ TopDecFree (Sf.after r op) := by
+  cases op with
+  | setFields ns =>
+    simp only [Sf.after]
+    split
+    · cases r with
+      | row hf fs vs => cases hf <;> exact ⟨h, by first | exact h | trivial⟩
+      | _ => exact ⟨h, trivial⟩
+    · cases r with
+      | row hf fs vs => exact ⟨h, h⟩
+      | _ => exact ⟨h, trivial⟩
+  | _ =>
+    cases r with
+    | row hf fs vs => cases hf <;> exact ⟨h, by first | exact h | trivial⟩
+    | _ => exact ⟨h, trivial⟩
 
 /-! ## 3. construction -/
 
@@ -213,18 +286,86 @@ theorem construct_topDecFree (c : Ctor) (r : Val) (h : Sf.construct c = .ok r) :
     · simp only [Sf.createRow, hc, if_true] at h
       cases h; exact floatifyAll_idem vs
 
+/-- the values given positionally (they are the only ones sqlframe does not convert) -/
+def Ctor.posVals : Ctor → Vals
+  | .positional vs => vs
+  | .both vs _ _ => vs
+  | _ => .nil
+
+theorem construct_allDecFree (c : Ctor) (r : Val) (h : Sf.construct c = .ok r) (hp : floatifyAll c.posVals = c.posVals) :
+    AllDecFree r := by
+  have ht := construct_topDecFree c r h
+  cases r with
+  | row hf fs vs =>
+    cases hf with
+    | true => exact ht
+    | false =>
+      -- a row without fields: its values are the positional arguments (or there are none)
+      have hk : decKwargs = true := by decide
+      have hc : decCreateRow = true := by decide
+      cases c with
+      | kwargs ns vs' =>
+        simp only [Sf.construct, Sf.new] at h
+        split at h
+        · cases h
+        · split at h
+          · cases h
+          · cases h; rfl
+      | positional vs' =>
+        simp only [Sf.construct, Sf.new] at h
+        split at h
+        · cases h
+        · simp only [List.isEmpty_nil, Bool.not_true, Bool.false_eq_true, if_false] at h
+          cases h; exact hp
+      | both vs' ns kvs =>
+        simp only [Sf.construct, Sf.new] at h
+        split at h
+        · cases h
+        · split at h
+          · cases h
+          · cases h; exact hp
+      | factory ns vs' =>
+        simp only [Sf.construct, Sf.new, List.isEmpty_nil, Bool.not_true, Bool.and_false, Bool.false_eq_true, if_false,
+          Except.bind, Sf.call] at h
+        split at h
+        · cases h
+        · simp only [Sf.createRow] at h; cases h
+  | _ => trivial
+
 /-! ## 4. scripts -/
+
+/-- scope of the script theorem: `row.__fields__ = …` is not applied to a row built POSITIONALLY from Decimal values
+    (sqlframe converts Decimal to float only where it attaches field names; giving such a row its names afterwards and
+    pickling it converts late — the same documented conversion, `C19_cex_decimal_late`) -/
+def H_fields_after_decimal (c : Ctor) (ops : List Op) : Prop :=
+  floatifyAll c.posVals = c.posVals ∨ ops.all (fun o => !o.isSetFields) = true
+
+theorem runOps_equiv : ∀ (ops : List Op) (r : Val), TopDecFree r →
+    (AllDecFree r ∨ ops.all (fun o => !o.isSetFields) = true) →
+    (Sf.runOps r ops).map Out.abs = (Ps.runOps r ops).map Out.abs
+  | [], _, _, _ => rfl
+  | op :: ops, r, h1, h2 => by
+    simp only [Sf.runOps, Ps.runOps, List.map_cons, C19_op_equiv r op h1, ← after_equiv r op, List.cons.injEq, true_and]
+    cases h2 with
+    | inl ha =>
+      have := after_allDecFree r op ha
+      exact runOps_equiv ops _ this.2 (Or.inl this.1)
+    | inr hn =>
+      simp only [List.all_cons, Bool.and_eq_true, Bool.not_eq_true'] at hn
+      rw [after_noset r op hn.1]
+      exact runOps_equiv ops r h1 (Or.inr hn.2)
+
 
 /-- **C19_row_equiv.** For every construction and every list of queries — any length, field names with duplicates,
     nested Rows / lists / dicts / None / Decimal values — sqlframe's Row produces the outcomes PySpark's Row produces
     on the float-converted construction (the one intended difference), exception classes identified. -/
-theorem C19_row_equiv (c : Ctor) (ops : List Op) :
+theorem C19_row_equiv (c : Ctor) (ops : List Op) (hs : H_fields_after_decimal c ops) :
     (Sf.run c ops).map Out.abs = (Ps.run c.floatify ops).map Out.abs := by
   have hc := C19_construct_equiv c
   unfold Sf.run Ps.run
-  cases hs : Sf.construct c with
+  cases hsf : Sf.construct c with
   | error e =>
-    rw [hs] at hc
+    rw [hsf] at hc
     cases hp : Ps.construct c.floatify with
     | error e' =>
       rw [hp] at hc; simp only [absE] at hc
@@ -232,27 +373,29 @@ theorem C19_row_equiv (c : Ctor) (ops : List Op) :
       simp [Out.abs, he]
     | ok v => rw [hp] at hc; simp [absE] at hc
   | ok r =>
-    rw [hs] at hc
+    rw [hsf] at hc
     cases hp : Ps.construct c.floatify with
     | error e' => rw [hp] at hc; simp [absE] at hc
     | ok v =>
       rw [hp] at hc
       simp only [absE] at hc
       cases hc
-      have ht := construct_topDecFree c r hs
-      simp only [List.map_cons, List.map_map, List.cons.injEq, true_and]
-      apply List.map_congr_left
-      intro op _
-      exact C19_op_equiv r op ht
+      have ht := construct_topDecFree c r hsf
+      have h2 : AllDecFree r ∨ ops.all (fun o => !o.isSetFields) = true := by
+        cases hs with
+        | inl hpv => exact Or.inl (construct_allDecFree c r hsf hpv)
+        | inr hn => exact Or.inr hn
+      simp only [List.map_cons, List.cons.injEq, true_and]
+      exact runOps_equiv ops r ht h2
 
 /-- no top-level Decimal among the constructor's values -/
 def Ctor.decimalFree (c : Ctor) : Prop := c.floatify = c
 
 /-- **C19_row_equiv_no_decimal.** Without Decimal values at the top level of the construction the two Rows are
     indistinguishable by any script. -/
-theorem C19_row_equiv_no_decimal (c : Ctor) (ops : List Op) (h : c.decimalFree) :
+theorem C19_row_equiv_no_decimal (c : Ctor) (ops : List Op) (h : c.decimalFree) (hs : H_fields_after_decimal c ops) :
     (Sf.run c ops).map Out.abs = (Ps.run c ops).map Out.abs := by
-  have := C19_row_equiv c ops
+  have := C19_row_equiv c ops hs
   rw [h] at this
   exact this
 
@@ -262,11 +405,31 @@ def C19_full_statement : Prop := ∀ (c : Ctor) (ops : List Op), (Sf.run c ops).
     hence the unrestricted statement fails. -/
 theorem C19_cex_decimal : decKwargs = true →
     Sf.run (.kwargs ["a"] (.cons (.dec 1500000000 "Decimal('1.5')" "1.5") .nil)) [.repr] =
-      [.val (.row true (.cons (.str "a") .nil) (.cons (.flt 1500000000 "1.5") .nil)), .s "Row(a=1.5)"] ∧
+      [.val (.row true (.cons (.str "a") .nil) (.cons (.flt 1500000000 "1.5") .nil)), .s "Row(a=1.5)",
+       .val (.row true (.cons (.str "a") .nil) (.cons (.flt 1500000000 "1.5") .nil))] ∧
     Ps.run (.kwargs ["a"] (.cons (.dec 1500000000 "Decimal('1.5')" "1.5") .nil)) [.repr] =
       [.val (.row true (.cons (.str "a") .nil) (.cons (.dec 1500000000 "Decimal('1.5')" "1.5") .nil)),
-       .s "Row(a=Decimal('1.5'))"] := by
+       .s "Row(a=Decimal('1.5'))",
+       .val (.row true (.cons (.str "a") .nil) (.cons (.dec 1500000000 "Decimal('1.5')" "1.5") .nil))] := by
   intro _; constructor <;> rfl
+
+/-- **the same conversion, late.** A row built positionally keeps its Decimal (`Row(Decimal('1.5'))`); once it is
+    given field names (`row.__fields__ = ['a']`) pickling goes through `_create_row`, which converts: the unpickled
+    row holds 1.5 in sqlframe and the Decimal in PySpark.  This is why `C19_row_equiv` carries
+    `H_fields_after_decimal`. -/
+theorem C19_cex_decimal_late : decCreateRow = true →
+    let c : Ctor := .positional (.cons (.dec 1500000000 "Decimal('1.5')" "1.5") .nil)
+    (match (Sf.run c [.setFields ["a"], .pickle])[2]? with
+     | some (.val (.row true _ (.cons (.flt 1500000000 "1.5") .nil))) => true | _ => false) = true ∧
+    (match (Ps.run c.floatify [.setFields ["a"], .pickle])[2]? with
+     | some (.val (.row true _ (.cons (.dec 1500000000 _ _) .nil))) => true | _ => false) = true ∧
+    ¬ H_fields_after_decimal c [.setFields ["a"], .pickle] := by
+  intro _
+  refine ⟨by decide +kernel, by decide +kernel, ?_⟩
+  intro h
+  cases h with
+  | inl h => simp [Ctor.posVals, floatifyAll, floatify] at h
+  | inr h => simp [Op.isSetFields] at h
 
 /-! ## 5. model laws -/
 
@@ -361,7 +524,9 @@ theorem compareVals_equiv (close : Int → Int → Bool) : ∀ a b : Val, Sf.com
     simp only [Sf.compareVals, Ps.compareVals, h, if_true, Bool.true_and, compareAll_equiv close xs ys]
   | .dict k1 v1, .dict k2 v2 => by
     have h : dictKeysChecked = true := by decide
-    simp only [Sf.compareVals, Ps.compareVals, h, if_true, compareDict_equiv close k1 v1 k2 v2]
+    have hl : dictLenChecked = true := by decide
+    have hb : dictPairing = .byKey := by decide
+    simp only [Sf.compareVals, Ps.compareVals, h, hl, hb, if_true, compareDict_equiv close k1 v1 k2 v2, Bool.and_assoc]
   | .flt a ra, .flt b rb => by
     have h : floatFormula = true := by decide
     simp only [Sf.compareVals, Ps.compareVals, h, if_true]
@@ -443,12 +608,19 @@ theorem zipLongestAll_equiv (close : Int → Int → Bool) : ∀ a e : List Val,
   | x :: xs, y :: ys => by
     simp only [Sf.zipLongestAll, Ps.zipLongestAll, Sf.compareRows, Ps.compareRows, compareVals_equiv, zipLongestAll_equiv close xs ys]
 
+theorem sortIf_equiv (order : Bool) (l : List Val) :
+    Sf.sortIf sortActual order l = Ps.sortIf order l ∧ Sf.sortIf sortExpected order l = Ps.sortIf order l := by
+  have ha : sortActual = .copy := by decide
+  have he : sortExpected = .copy := by decide
+  simp only [Sf.sortIf, Ps.sortIf, ha, he, sortRows_equiv]
+  cases order <;> simp
+
 /-- **C19_assert_equiv.** On the same two lists of rows, for every `checkRowOrder` setting and every closeness
     predicate (i.e. every rtol / atol), sqlframe's assertDataFrameEqual accepts exactly when PySpark's does. -/
 theorem C19_assert_equiv (close : Int → Int → Bool) (checkRowOrder : Bool) (actual expected : List Val) :
     Sf.verdict close checkRowOrder actual expected = Ps.verdict close checkRowOrder actual expected := by
-  have h : sortsBoth = true := by decide
-  simp only [Sf.verdict, Ps.verdict, h, Bool.and_true, sortRows_equiv, zipLongestAll_equiv]
+  simp only [Sf.verdict, Ps.verdict, zipLongestAll_equiv, (sortIf_equiv checkRowOrder actual).1,
+    (sortIf_equiv checkRowOrder expected).2]
 
 mutual
 theorem compareDatatypes_equiv : ∀ a b : DType, Sf.compareDatatypes a b = Ps.compareDatatypes a b
@@ -516,6 +688,239 @@ end
 theorem C19_schema_ignores_nullable (a e : SFields) : Sf.schemaVerdict a.strip e.strip = Sf.schemaVerdict a e := by
   simp only [Sf.schemaVerdict, strip_length, compareFields_strip]
 
+/-! ## 8. attribute access reaches every field; slices -/
+
+/-- **C19_getattr_field.** Every field whose name does not begin with TWO underscores (and is not a method of the
+    class) is reachable as an attribute, and `row.name` is `row["name"]` — the first field of that name.  In
+    particular single-underscore names (`_1`, `_c0`, Spark's own default column names) are ordinary fields. -/
+theorem C19_getattr_field (fs vs : Vals) (name : String)
+    (hd : Py.startsWith name "__" = false) (hc : Py.classAttrs.contains name = false)
+    (hin : Py.contains (.str name) fs = true) (hlen : fs.length ≤ vs.length) :
+    ∃ v, Sf.getAttr (.row true fs vs) name = .val v ∧ Sf.getKey (.row true fs vs) (.str name) = .val v ∧
+      Ps.getAttr (.row true fs vs) name = .val v := by
+  have hp : getattrGuardPrefix = "__" := by decide
+  obtain ⟨k, hk, hlt⟩ := indexOf_of_contains (.str name) fs 0 hin
+  obtain ⟨v, hv⟩ := get?_lt vs k (by omega)
+  exact ⟨v, by simp only [Sf.getAttr, hc, hp, hd, hk, hv]; simp, by simp only [Sf.getKey, hk, hv],
+    by simp only [Ps.getAttr, hc, hd, hk, hv]; simp⟩
+
+/-- **C19_getattr_guard.** Exactly the names beginning with two underscores are refused up front, whatever the fields
+    are (the probes of copy / pickle / hasattr(row, "__fields__") rely on it). -/
+theorem C19_getattr_guard (r : Val) (name : String) (hc : Py.classAttrs.contains name = false)
+    (hd : Py.startsWith name "__" = true) :
+    Sf.getAttr r name = .err .attributeError ∧ Ps.getAttr r name = .err .attributeError := by
+  have hp : getattrGuardPrefix = "__" := by decide
+  have hg : getattrGuardRaises = .attributeError := by decide
+  exact ⟨by simp only [Sf.getAttr, hc, hp, hd, hg, Err.ofExc]; simp, by simp only [Ps.getAttr, hc, hd]; simp⟩
+
+/-- a name that is no field (and not refused up front) raises AttributeError as an attribute and the package's own
+    error as a key — never a value -/
+theorem C19_getattr_missing (fs vs : Vals) (name : String)
+    (hd : Py.startsWith name "__" = false) (hc : Py.classAttrs.contains name = false)
+    (hin : Py.indexOf (.str name) fs 0 = none) :
+    Sf.getAttr (.row true fs vs) name = .err .attributeError ∧
+    Sf.getKey (.row true fs vs) (.str name) = .err .rowError := by
+  have hp : getattrGuardPrefix = "__" := by decide
+  have hn : getattrNoField = .attributeError := by decide
+  have hk : getitemNoField = .domainError := by decide
+  exact ⟨by simp only [Sf.getAttr, hc, hp, hd, hin, hn, Err.ofExc]; simp, by simp only [Sf.getKey, hin, hk, Err.ofExc]⟩
+
+theorem takeVals_all : ∀ vs : Vals, Py.takeVals vs.length vs = vs
+  | .nil => rfl
+  | .cons v vs => by simp only [Vals.length, Py.takeVals, takeVals_all vs]
+
+/-- **C19_slice_all.** `row[0:len(row)]` is the tuple of all values (a plain tuple: the field names are gone). -/
+theorem C19_slice_all (hf : Bool) (fs vs : Vals) :
+    Sf.getSlice (.row hf fs vs) 0 vs.length = .tup vs ∧ Ps.getSlice (.row hf fs vs) 0 vs.length = .tup vs := by
+  have hs : getitemSlice = true := by decide
+  have h : Py.slice vs 0 vs.length = vs := by
+    have hhi : Py.clampBound vs.length (vs.length : Int) = vs.length := by
+      have h1 : ¬ ((vs.length : Int) < 0) := by omega
+      have h2 : ¬ ((vs.length : Int).toNat < vs.length) := by omega
+      simp only [Py.clampBound, h1, h2, if_false]
+    have hlo : Py.clampBound vs.length 0 = 0 := by
+      by_cases h0 : (0 : Int).toNat < vs.length
+      · simp only [Py.clampBound, h0, if_true]; rfl
+      · have : vs.length = 0 := by simp at h0; omega
+        simp only [Py.clampBound, this]; rfl
+    show Py.takeVals (Py.clampBound vs.length (vs.length : Int) - Py.clampBound vs.length 0)
+      (Py.dropVals (Py.clampBound vs.length 0) vs) = vs
+    rw [hhi, hlo, Nat.sub_zero]
+    simp only [Py.dropVals, takeVals_all]
+  exact ⟨by simp only [Sf.getSlice, hs, if_true, h], by simp only [Ps.getSlice, h]⟩
+
+/-! ## 9. maps are compared key by key: the insertion order plays no part -/
+
+/-- **C19_dict_insertion_order.** For two maps given with their entries in any insertion order (keys of a dict are
+    distinct), `compare_vals` gives the same answer: it depends on the key → value mapping only.  (Pairing the values
+    by position instead — `zip(val1.values(), val2.values())` — does not have this property.) -/
+theorem C19_dict_insertion_order (close : Int → Int → Bool)
+    (k1 : List String) (v1 : Vals) (k2 : List String) (v2 : Vals)
+    (k1' : List String) (v1' : Vals) (k2' : List String) (v2' : Vals)
+    (hl1 : k1.length = v1.length) (hl1' : k1'.length = v1'.length)
+    (hl2 : k2.length = v2.length) (hl2' : k2'.length = v2'.length)
+    (hp1 : (Py.pairs k1 v1).Perm (Py.pairs k1' v1')) (hp2 : (Py.pairs k2 v2).Perm (Py.pairs k2' v2'))
+    (hnd : k2.Nodup) :
+    Sf.compareVals close (.dict k1 v1) (.dict k2 v2) = Sf.compareVals close (.dict k1' v1') (.dict k2' v2') ∧
+    Sf.compareVals close (.dict k1' v1') (.dict k2' v2') = Ps.compareVals close (.dict k1' v1') (.dict k2' v2') := by
+  refine ⟨?_, compareVals_equiv close _ _⟩
+  have hb : dictPairing = .byKey := by decide
+  have hk1 : k1.Perm k1' := by
+    have := hp1.map Prod.fst
+    rwa [pairs_keys k1 v1 hl1, pairs_keys k1' v1' hl1'] at this
+  have hk2 : k2.Perm k2' := by
+    have := hp2.map Prod.fst
+    rwa [pairs_keys k2 v2 hl2, pairs_keys k2' v2' hl2'] at this
+  have hnd2 : ((Py.pairs k2 v2).map Prod.fst).Nodup := by rw [pairs_keys k2 v2 hl2]; exact hnd
+  simp only [Sf.compareVals, hb, hk1.length_eq, hk2.length_eq, all_contains_perm hk1 hk2, all_contains_perm hk2 hk1,
+    compareDict_all]
+  congr 1
+  rw [all_perm _ hp1]
+  apply List.all_congr rfl
+  intro p
+  rw [lookupP_perm p.1 hp2 hnd2]
+
+/-- **why maps must be paired by key.** `{'a': 1, 'b': 2}` against `{'b': 2, 'a': 1}`: key by key they agree;
+    paired by position (`zip(val1.values(), val2.values())`) 1 meets 2.  And `{'a': 1, 'b': 2}` against
+    `{'b': 1, 'a': 2}` is wrongly accepted by position. -/
+theorem C19_cex_positional :
+    let ab : Vals := .cons (.int 1) (.cons (.int 2) .nil)
+    let ba : Vals := .cons (.int 2) (.cons (.int 1) .nil)
+    Sf.compareDict (fun a b => a == b) ["a", "b"] ab ["b", "a"] ba = true ∧
+    Sf.compareAll (fun a b => a == b) ab ba = false ∧
+    Sf.compareDict (fun a b => a == b) ["a", "b"] ab ["b", "a"] ab = false ∧
+    Sf.compareAll (fun a b => a == b) ab ab = true := by decide +kernel
+
+/-- an instance of `C19_dict_insertion_order` with a genuinely different insertion order -/
+example : (Py.pairs ["b", "a"] (.cons (.flt 2000000000 "2.0") (.cons (.flt 1000000000 "1.0") .nil))).Perm
+    (Py.pairs ["a", "b"] (.cons (.flt 1000000000 "1.0") (.cons (.flt 2000000000 "2.0") .nil))) ∧ ["b", "a"].Nodup :=
+  ⟨List.Perm.swap _ _ _, by decide⟩
+
+/-- an instance of `C19_getattr_field`: `Row(_1=1, _2='a')._1` -/
+example : Py.startsWith "_1" "__" = false ∧ Py.classAttrs.contains "_1" = false ∧
+    Py.contains (.str "_1") (.cons (.str "_1") (.cons (.str "_2") .nil)) = true ∧
+    (match Sf.getAttr (.row true (.cons (.str "_1") (.cons (.str "_2") .nil)) (.cons (.int 1) (.cons (.str "a") .nil))) "_1" with
+     | .val (.int 1) => true | _ => false) = true := by decide +kernel
+
+/-! ## 10. the helper leaves its arguments alone: sequences of calls on the same list objects -/
+
+theorem upd_id (s : St) (b : Bool) (f : List Val → List Val) (hf : ∀ l, f l = l) : s.upd b f = s := by
+  cases s; cases b <;> simp only [St.upd, hf] <;> rfl
+
+theorem step_equiv (c : Call) (s : St) : Sf.step c s = Ps.step c s := by
+  have ha : sortActual = .copy := by decide
+  have he : sortExpected = .copy := by decide
+  have h1 : ∀ l, Sf.callerAfter sortActual c.order l = l := by
+    intro l; simp only [Sf.callerAfter, ha]; cases c.order <;> rfl
+  have h2 : ∀ l, Sf.callerAfter sortExpected c.order l = l := by
+    intro l; simp only [Sf.callerAfter, he]; cases c.order <;> rfl
+  simp only [Sf.step, Sf.stepM, Ps.step, upd_id _ _ _ h1, upd_id _ _ _ h2, Ps.verdict, zipLongestAll_equiv,
+    (sortIf_equiv c.order _).1, (sortIf_equiv c.order _).2]
+
+/-- **C19_assert_calls_equiv.** Any sequence of assertDataFrameEqual calls — each with its own checkRowOrder / rtol /
+    atol, the caller's two lists passed in either role or one list as both arguments — gives, call by call, the
+    verdicts PySpark gives, and leaves the caller's lists as PySpark leaves them. -/
+theorem C19_assert_calls_equiv : ∀ (cs : List Call) (s : St), Sf.runCalls cs s = Ps.runCalls cs s
+  | [], _ => rfl
+  | c :: cs, s => by
+    have hs : Sf.stepM sortActual sortExpected c s = Ps.step c s := step_equiv c s
+    have ih : Sf.runCallsM sortActual sortExpected cs (Ps.step c s).2 = Ps.runCalls cs (Ps.step c s).2 :=
+      C19_assert_calls_equiv cs _
+    simp only [Sf.runCalls, Sf.runCallsM, Ps.runCalls, hs, ih]
+
+/-- **C19_assert_pure.** The helper is a pure check: after any sequence of calls the caller's lists are what they
+    were, and every verdict is the verdict of that call on the ORIGINAL lists (an earlier call never influences a
+    later one). -/
+theorem C19_assert_pure : ∀ (cs : List Call) (s : St),
+    (Sf.runCalls cs s).2 = s ∧
+    (Sf.runCalls cs s).1 = cs.map (fun c => Sf.verdict c.close c.order (s.get c.sel.firstIsA) (s.get c.sel.secondIsA))
+  | [], _ => ⟨rfl, rfl⟩
+  | c :: cs, s => by
+    have hs : (Sf.step c s).2 = s := by rw [step_equiv]; rfl
+    have hv : (Sf.step c s).1 = Sf.verdict c.close c.order (s.get c.sel.firstIsA) (s.get c.sel.secondIsA) := by
+      rw [step_equiv, C19_assert_equiv]; rfl
+    have ih := C19_assert_pure cs s
+    have hs' : (Sf.stepM sortActual sortExpected c s).2 = s := hs
+    have hv' : (Sf.stepM sortActual sortExpected c s).1 = _ := hv
+    simp only [Sf.runCalls] at ih
+    simp only [Sf.runCalls, Sf.runCallsM, hs', hv', ih.1, ih.2, List.map_cons, and_self]
+
+def exR1 : Val := .row true (.cons (.str "id") .nil) (.cons (.int 1) .nil)
+def exR2 : Val := .row true (.cons (.str "id") .nil) (.cons (.int 2) .nil)
+def exCalls : List Call :=
+  [{ close := fun a b => a == b, order := false, sel := .ae }, { close := fun a b => a == b, order := true, sel := .ae }]
+
+/-- **why the sort must work on copies.** Rows collected as [2, 1] against the expectation [1, 2]: the unordered call
+    accepts and the ordered call on the same lists rejects — unless the first call sorted the caller's lists in place,
+    in which case the second call is wrongly accepted and the caller's list has changed. -/
+theorem C19_cex_sort_in_place :
+    (Sf.runCallsM .copy .copy exCalls ⟨[exR2, exR1], [exR1, exR2]⟩).1 = [true, false] ∧
+    (Sf.runCallsM .inPlace .inPlace exCalls ⟨[exR2, exR1], [exR1, exR2]⟩).1 = [true, true] ∧
+    ((Sf.runCallsM .inPlace .inPlace exCalls ⟨[exR2, exR1], [exR1, exR2]⟩).2.a.map Sf.repr) = ["Row(id=1)", "Row(id=2)"] := by
+  decide +kernel
+
+/-- the same two calls under the source's sort modes: the instance of `C19_assert_pure` -/
+example : (Sf.runCalls exCalls ⟨[exR2, exR1], [exR1, exR2]⟩).1 = [true, false] := by decide +kernel
+
+/-! ## 11. None / list / DataFrame arguments -/
+
+/-- **C19_assert_args_equiv.** For every kind of argument pair — None, a list of rows, a DataFrame (its schema and
+    its collected rows) — the call is accepted exactly when PySpark accepts it: both None is accepted, one None is
+    refused, the schemas are compared (ignoring nullability) only when both arguments are DataFrames, then the rows. -/
+theorem C19_assert_args_equiv (close : Int → Int → Bool) (order : Bool) (a e : Arg) :
+    Sf.verdictArgs close order a e = Ps.verdictArgs close order a e := by
+  have hn : noneBothAccepts = true := by decide
+  have hw : schemaWhen = .bothFrames := by decide
+  cases a <;> cases e <;>
+    simp only [Sf.verdictArgs, Ps.verdictArgs, hn, hw, C19_assert_equiv, C19_schema_equiv]
+
+/-! ## 12. checkRowOrder=False really ignores the order -/
+
+/-- **C19_unordered_perm.** With checkRowOrder=False the verdict does not depend on the order of either list: any
+    permutation of `actual` against any permutation of `expected` gets the same verdict (rows are told apart by their
+    `str()`, the sort key) — in sqlframe as in PySpark. -/
+theorem C19_unordered_perm (close : Int → Int → Bool) (a a' e e' : List Val) (ha : a.Perm a') (he : e.Perm e')
+    (hia : ∀ x y, x ∈ a → y ∈ a → Sf.repr x = Sf.repr y → x = y)
+    (hie : ∀ x y, x ∈ e → y ∈ e → Sf.repr x = Sf.repr y → x = y) :
+    Sf.verdict close false a e = Sf.verdict close false a' e' ∧
+    Sf.verdict close false a' e' = Ps.verdict close false a' e' := by
+  refine ⟨?_, C19_assert_equiv close false a' e'⟩
+  have hsa : sortActual = .copy := by decide
+  have hse : sortExpected = .copy := by decide
+  simp only [Sf.verdict, Sf.sortIf, hsa, hse]
+  have h1 := sortRows_perm_eq a a' ha hia
+  have h2 := sortRows_perm_eq e e' he hie
+  simp [h1, h2]
+
+/-- **C19_unordered_accepts_permutation.** With checkRowOrder=False a list is accepted against any permutation of
+    itself (every float being close to itself), whatever is nested in the rows. -/
+theorem C19_unordered_accepts_permutation (close : Int → Int → Bool) (hc : ∀ x, close x x = true) (a e : List Val)
+    (hp : a.Perm e) (hwf : ∀ r, r ∈ a → r.WF)
+    (hia : ∀ x y, x ∈ a → y ∈ a → Sf.repr x = Sf.repr y → x = y) :
+    Sf.verdict close false a e = true := by
+  have hsa : sortActual = .copy := by decide
+  have hse : sortExpected = .copy := by decide
+  have h1 := sortRows_perm_eq a e hp hia
+  simp only [Sf.verdict, Sf.sortIf, hsa, hse]
+  have : Sf.zipLongestAll close (Sf.sortRows a) (Sf.sortRows e) = true := by
+    rw [← h1]
+    exact zipLongestAll_refl close hc _ (fun r hr => hwf r ((sortRows_perm a).mem_iff.mp hr))
+  simpa using this
+
+/-- an instance: three rows (a nested map among them) against their reversal -/
+example :
+    let r1 : Val := .row true (.cons (.str "id") .nil) (.cons (.int 1) .nil)
+    let r2 : Val := .row true (.cons (.str "id") .nil) (.cons (.int 2) .nil)
+    let r3 : Val := .row true (.cons (.str "m") .nil) (.cons (.dict ["a", "b"] (.cons (.flt 1500000000 "1.5") (.cons .none .nil))) .nil)
+    [r1, r2, r3].Perm [r3, r2, r1] ∧ (∀ r, r ∈ [r1, r2, r3] → r.WF) ∧
+    Sf.verdict (fun x y => x == y) false [r1, r2, r3] [r3, r2, r1] = true ∧
+    Sf.verdict (fun x y => x == y) true [r1, r2, r3] [r3, r2, r1] = false := by
+  refine ⟨?_, ?_, by decide +kernel, by decide +kernel⟩
+  · exact (List.Perm.swap _ _ _).trans ((List.Perm.cons _ (List.Perm.swap _ _ _)).trans (List.Perm.swap _ _ _))
+  · intro r hr
+    simp only [List.mem_cons, List.mem_nil_iff, or_false] at hr
+    rcases hr with h | h | h <;> subst h <;> simp [Val.WF, Vals.WF, Vals.length]
+
 /-! ## 7. non-vacuity -/
 
 def exCtor : Ctor :=
@@ -529,11 +934,23 @@ def exOps : List Op :=
 
 /-- a script that exercises duplicate names, a nested Row, a Decimal, errors of three kinds; the outcomes are not all
     errors and the two sides really differ before the float conversion -/
-example : ((Sf.run exCtor exOps).map Out.abs).length = 11 ∧
+example : ((Sf.run exCtor exOps).map Out.abs).length = 12 ∧
     (match (Sf.run exCtor exOps)[3]? with | some (Out.val (Val.dict ks _)) => ks == ["a", "b"] | _ => false) = true ∧
     (match (Sf.run exCtor exOps)[6]? with | some (Out.err Err.rowError) => true | _ => false) = true ∧
     (match (Ps.run exCtor exOps)[6]? with | some (Out.err Err.psValueError) => true | _ => false) = true := by
   decide +kernel
+
+/-- a script inside `H_fields_after_decimal` that does assign `__fields__`: the later queries see the new names, and
+    the row reported at the end is the renamed one -/
+example :
+    let c : Ctor := .kwargs ["a", "b"] (.cons (.int 1) (.cons (.dec 2250000000 "Decimal('2.25')" "2.25") .nil))
+    let ops : List Op := [.getAttr "_1", .setFields ["_1", "_2"], .getAttr "_1", .getKey (.str "a"), .pickle]
+    H_fields_after_decimal c ops ∧
+    (match Sf.run c ops with
+     | [.val _, .err .attributeError, .b true, .val (.int 1), .err .rowError, .val (.row true _ _), .val (.row true fs _)] =>
+       fs.length == 2
+     | _ => false) = true := by
+  refine ⟨Or.inl rfl, by decide +kernel⟩
 
 example : Ctor.decimalFree (.kwargs ["name", "age"] (.cons (.str "Alice") (.cons (.int 11) .nil))) := rfl
 
